@@ -267,6 +267,10 @@ impl From<EntityBuilderClone> for BuiltEntityClone {
     fn from(mut x: EntityBuilderClone) -> Self {
         x.inner.info.sort_unstable_by_key(|y| y.0);
         x.inner.ids.extend(x.inner.info.iter().map(|y| y.0.id()));
+        // Sorting moved the entries of `info`, so `indices` must be updated to match
+        for (index, (ty, _, _)) in x.inner.info.iter().enumerate() {
+            x.inner.indices.insert(ty.id(), index);
+        }
         Self(x.inner)
     }
 }
